@@ -331,6 +331,8 @@ class Normaliser:
             self._inline_module(tree, name)
         # private record types (NamedTuple / dataclass the rules do not know) used to carry intermediate values: their
         # methods are inlined, then the record is replaced by its components
+        for tree in trees.values():
+            canonical_idioms(tree)
         self._records(trees)
         self._drop_orphans(trees)
         for tree in trees.values():
@@ -391,6 +393,40 @@ class Normaliser:
                     self._mark(call, st)
                     block.insert(block.index(st), pre)
                     changed = True
+        # 0b. str(K(a, b, c)) with a single-return __str__: the formatted string itself
+        for call in [n for n in ast.walk(fn) if isinstance(n, ast.Call) and isinstance(n.func, ast.Name) and n.func.id == 'str' and len(n.args) == 1 and not n.keywords]:
+            inner = call.args[0]
+            if not (isinstance(inner, ast.Call) and isinstance(inner.func, ast.Name) and inner.func.id in recs and not inner.keywords and not any(isinstance(a, ast.Starred) for a in inner.args)):
+                continue
+            c, fields = recs[inner.func.id]
+            m = c.own.get('__str__')
+            if not isinstance(m, ast.FunctionDef) or len(inner.args) != len(fields):
+                continue
+            body = _docless(m.body)
+            if len(body) != 1 or not isinstance(body[0], ast.Return) or body[0].value is None:
+                continue
+            me = m.args.args[0].arg
+            expr = clone(body[0].value, c.module.name)
+
+            class F(ast.NodeTransformer):
+                def visit_Attribute(self, node):
+                    self.generic_visit(node)
+                    if isinstance(node.value, ast.Name) and node.value.id == me and node.attr in fields:
+                        a = inner.args[fields.index(node.attr)]
+                        return clone(a, getattr(a, '_omod', None) or modname)
+                    return node
+
+            expr = F().visit(expr)
+            if any(isinstance(x, ast.Name) and x.id == me for x in ast.walk(expr)):
+                continue
+            self._mark(expr, call)
+            self._replace(fn, call, expr)
+            return True
+        # 0c. a record variable stored several times (a loop accumulator), or aliased: every store is a construction of one
+        # record class or the name of another such variable, every load a field load -> one variable per field
+        fam = self._record_family(fn, recs, modname)
+        if fam:
+            return True
         # 1. variables bound once to a record construction
         bound: dict[str, tuple[ast.Assign, list[str], list[ast.AST], ClassInfo]] = {}
         stores: dict[str, int] = {}
@@ -461,13 +497,30 @@ class Normaliser:
                 return True
             # 3. every remaining use must be a field load or a whole-record tuple unpacking
             field_uses = []
+            unpackings = []
             whole = False
             for u in uses:
                 par = parents[id(u)]
                 if isinstance(par, ast.Attribute) and par.value is u and par.attr in fields and isinstance(par.ctx, ast.Load):
                     field_uses.append(par)
+                elif (isinstance(par, ast.Assign) and par.value is u and len(par.targets) == 1 and isinstance(par.targets[0], (ast.Tuple, ast.List))
+                      and len(par.targets[0].elts) == len(fields) and not any(isinstance(e, ast.Starred) for e in par.targets[0].elts)):
+                    unpackings.append(par)
                 else:
                     whole = True
+            if not whole:
+                for par in unpackings:
+                    tup = ast.Tuple(elts=[clone(x, getattr(x, '_omod', None) or modname) for x in vals], ctx=ast.Load())
+                    self._mark(tup, par)
+                    par.value = tup
+                if unpackings and not field_uses:
+                    for block in [b for n in ast.walk(fn) for b in (getattr(n, 'body', None), getattr(n, 'orelse', None), getattr(n, 'finalbody', None)) if isinstance(b, list)]:
+                        if asg in block:
+                            block.remove(asg)
+                            if not block:
+                                block.append(self._mark_new(ast.Pass(), asg))
+                            break
+                    return True
             if whole or not field_uses and not uses:
                 continue
             # replace the construction by component bindings (atomic arguments are substituted directly)
@@ -497,6 +550,93 @@ class Normaliser:
                     break
             return True
         return changed
+
+    def _record_family(self, fn: ast.FunctionDef, recs: dict, modname: str) -> bool:
+        assigns: dict[str, list[ast.Assign]] = {}
+        other_store: set[str] = set()
+        for n in ast.walk(fn):
+            if isinstance(n, ast.Assign) and len(n.targets) == 1 and isinstance(n.targets[0], ast.Name):
+                assigns.setdefault(n.targets[0].id, []).append(n)
+        for n in ast.walk(fn):
+            if isinstance(n, ast.Name) and isinstance(n.ctx, ast.Store):
+                if not any(a.targets[0] is n for a in assigns.get(n.id, [])):
+                    other_store.add(n.id)
+        # seed: variables with at least one construction, stored more than once or aliased by another variable
+        cls_of: dict[str, str] = {}
+        for v, sts in assigns.items():
+            for a in sts:
+                if isinstance(a.value, ast.Call) and isinstance(a.value.func, ast.Name) and a.value.func.id in recs:
+                    cls_of[v] = a.value.func.id
+        changed = True
+        while changed:
+            changed = False
+            for v, sts in assigns.items():
+                if v in cls_of:
+                    continue
+                if sts and all(isinstance(a.value, ast.Name) and a.value.id in cls_of for a in sts):
+                    kinds = {cls_of[a.value.id] for a in sts}
+                    if len(kinds) == 1:
+                        cls_of[v] = kinds.pop()
+                        changed = True
+        family = set()
+        for v, k in cls_of.items():
+            if v in other_store:
+                continue
+            ok = all((isinstance(a.value, ast.Call) and isinstance(a.value.func, ast.Name) and a.value.func.id == k) or (isinstance(a.value, ast.Name) and cls_of.get(a.value.id) == k)
+                     for a in assigns[v])
+            if ok:
+                family.add(v)
+        # only worth it when some member is stored several times or aliases another
+        if not any(len(assigns[v]) > 1 or any(isinstance(a.value, ast.Name) for a in assigns[v]) for v in family):
+            return False
+        # every load of a member must be a field load, or the value of an alias assignment inside the family
+        parents: dict[int, ast.AST] = {}
+        for par in ast.walk(fn):
+            for ch in ast.iter_child_nodes(par):
+                parents[id(ch)] = par
+        for v in list(family):
+            _c, fields = recs[cls_of[v]]
+            for u in [n for n in ast.walk(fn) if isinstance(n, ast.Name) and n.id == v and isinstance(n.ctx, ast.Load)]:
+                par = parents.get(id(u))
+                if isinstance(par, ast.Attribute) and par.value is u and par.attr in fields:
+                    continue
+                if isinstance(par, ast.Assign) and par.value is u and len(par.targets) == 1 and isinstance(par.targets[0], ast.Name) and par.targets[0].id in family:
+                    continue
+                family.discard(v)
+        if not family:
+            return False
+        # constructions with keywords / positionals resolved per field
+        did = False
+        for v in family:
+            _c, fields = recs[cls_of[v]]
+            for a in assigns[v]:
+                if isinstance(a.value, ast.Name):
+                    if a.value.id not in family:
+                        return did
+                    vals = [ast.Name(id=f'{a.value.id}_{f}', ctx=ast.Load()) for f in fields]
+                else:
+                    call = a.value
+                    if any(isinstance(x, ast.Starred) for x in call.args) or any(k.arg is None for k in call.keywords):
+                        return did
+                    vals = list(call.args) + [None] * (len(fields) - len(call.args))
+                    for k in call.keywords:
+                        if k.arg in fields and vals[fields.index(k.arg)] is None:
+                            vals[fields.index(k.arg)] = k.value
+                    if any(x is None for x in vals):
+                        return did
+                a.targets = [ast.Tuple(elts=[ast.Name(id=f'{v}_{f}', ctx=ast.Store()) for f in fields], ctx=ast.Store())]
+                a.value = ast.Tuple(elts=vals, ctx=ast.Load())
+                self._mark(a, a)
+                did = True
+        # field loads
+        for v in family:
+            _c, fields = recs[cls_of[v]]
+            for node in [n for n in ast.walk(fn) if isinstance(n, ast.Attribute) and isinstance(n.value, ast.Name) and n.value.id == v and n.attr in fields and isinstance(n.ctx, ast.Load)]:
+                new = ast.Name(id=f'{v}_{node.attr}', ctx=ast.Load())
+                self._mark(new, node)
+                self._replace(fn, node, new)
+                did = True
+        return did
 
     def budget_exhausted(self) -> bool:
         return False
@@ -970,9 +1110,17 @@ class Normaliser:
     # -------------------------------------------------------------- argument binding
     def _bind(self, call: ast.Call, callee: ast.FunctionDef, recv: ast.AST | None, kind: str) -> list[tuple[str, ast.AST]]:
         a = callee.args
-        if a.vararg or a.kwarg or any(isinstance(x, ast.Starred) for x in call.args) or any(k.arg is None for k in call.keywords):
+        if a.kwarg or any(isinstance(x, ast.Starred) for x in call.args) or any(k.arg is None for k in call.keywords):
             raise NotInlinable('variadic')
         params = [p.arg for p in a.posonlyargs + a.args]
+        vararg_pair = None
+        if a.vararg:
+            # *names receives the surplus positional arguments as a tuple
+            npos = len(params) - (1 if kind in ('method', 'class', 'unbound-class') else 0)
+            surplus = list(call.args[npos:])
+            call = ast.Call(func=call.func, args=list(call.args[:npos]), keywords=call.keywords)
+            tup = ast.Tuple(elts=surplus, ctx=ast.Load())
+            vararg_pair = (a.vararg.arg, tup)
         defaults = [None] * (len(params) - len(a.defaults)) + list(a.defaults)
         args = list(call.args)
         pairs: list[tuple[str, ast.AST]] = []
@@ -1008,6 +1156,8 @@ class Normaliser:
                 raise NotInlinable('missing keyword argument')
         if kws:
             raise NotInlinable('unexpected keyword')
+        if vararg_pair is not None:
+            pairs.append(vararg_pair)
         return pairs
 
     def _prepare(self, call: ast.Call, hit, fn: ast.FunctionDef):
@@ -1027,7 +1177,8 @@ class Normaliser:
         exprs: dict[str, ast.AST] = {}
         binds: list[tuple[str, ast.AST]] = []
         for p, arg in pairs:
-            if p not in stored and (_atomic(arg) or loads.get(p, 0) == 0 or isinstance(arg, ast.Lambda)):
+            if p not in stored and (_atomic(arg) or loads.get(p, 0) == 0 or isinstance(arg, ast.Lambda)
+                                    or (isinstance(arg, ast.Tuple) and all(isinstance(x, ast.Constant) for x in arg.elts))):
                 exprs[p] = arg
             else:
                 binds.append((p, arg))
@@ -1208,19 +1359,95 @@ class Normaliser:
 
 
 # ---------------------------------------------------------------------------------------------- idioms
+class _Literals(ast.NodeTransformer):
+    """{k: f(k) for k in ('a', 'b')} -> {'a': f('a'), 'b': f('b')} (likewise lists); getattr(x, 'name') -> x.name."""
+
+    def __init__(self) -> None:
+        self.n = 0
+
+    def _consts(self, node):
+        g = node.generators
+        if len(g) == 1 and not g[0].ifs and isinstance(g[0].target, ast.Name) and isinstance(g[0].iter, (ast.Tuple, ast.List)) and 0 < len(g[0].iter.elts) <= 12 \
+                and all(isinstance(x, ast.Constant) for x in g[0].iter.elts):
+            return g[0].target.id, g[0].iter.elts
+        return None
+
+    def visit_DictComp(self, node):
+        self.generic_visit(node)
+        hit = self._consts(node)
+        if hit is None:
+            return node
+        var, consts = hit
+        omod = getattr(node, '_omod', '')
+        keys = [_Subst({var: c}, {}, omod).visit(clone(node.key, omod)) for c in consts]
+        vals = [_Subst({var: c}, {}, omod).visit(clone(node.value, omod)) for c in consts]
+        self.n += 1
+        new = ast.Dict(keys=keys, values=[self.visit(v) for v in vals])
+        return ast.copy_location(new, node)
+
+    def visit_ListComp(self, node):
+        self.generic_visit(node)
+        hit = self._consts(node)
+        if hit is None:
+            return node
+        var, consts = hit
+        omod = getattr(node, '_omod', '')
+        self.n += 1
+        new = ast.List(elts=[self.visit(_Subst({var: c}, {}, omod).visit(clone(node.elt, omod))) for c in consts], ctx=ast.Load())
+        return ast.copy_location(new, node)
+
+    def visit_Call(self, node):
+        self.generic_visit(node)
+        if isinstance(node.func, ast.Name) and node.func.id == 'getattr' and len(node.args) == 2 and not node.keywords and isinstance(node.args[1], ast.Constant) \
+                and isinstance(node.args[1].value, str) and node.args[1].value.isidentifier():
+            self.n += 1
+            return ast.copy_location(ast.Attribute(value=node.args[0], attr=node.args[1].value, ctx=ast.Load()), node)
+        return node
+
+
 def canonical_idioms(tree: ast.AST) -> int:
     """`xs = []; for t in it: (a = e)*; [if c:] xs.append(v)`  ->  `xs = [v' for t in it if c']` (locals of the body
     substituted).  Both spellings build the same list; the comprehension is the form the rules read."""
     n = 0
+    lit = _Literals()
+    for fnode in [x for x in ast.walk(tree) if isinstance(x, ast.FunctionDef)]:
+        omods = {id(x): getattr(x, '_omod', None) for x in ast.walk(fnode)}
+        lit.visit(fnode)
+        for x in ast.walk(fnode):
+            if not getattr(x, '_omod', None):
+                x._omod = getattr(fnode, '_omod', '')  # type: ignore[attr-defined]
+            if isinstance(x, (ast.expr, ast.stmt)) and not hasattr(x, 'lineno'):
+                x.lineno, x.col_offset, x.end_lineno, x.end_col_offset = fnode.lineno, 0, fnode.lineno, 0
+    n += lit.n
     for node in ast.walk(tree):
         for field in ('body', 'orelse', 'finalbody'):
             block = getattr(node, field, None)
             if isinstance(block, list) and block and isinstance(block[0], ast.stmt):
                 n += _loops_to_comprehensions(block)
+                n += _loop_target_unpack(block)
                 if not isinstance(node, (ast.ClassDef, ast.Module)):
                     n += _reduce_to_loop(block)
                     n += _defs_to_lambdas(block)
                     n += _tables_to_ladders(block, tree)
+    return n
+
+
+def _loop_target_unpack(block: list[ast.stmt]) -> int:
+    """`for t in xs: a, b = t; ...` with t used nowhere else  ->  `for a, b in xs: ...`."""
+    n = 0
+    for st in block:
+        if not (isinstance(st, ast.For) and isinstance(st.target, ast.Name) and st.body):
+            continue
+        first = st.body[0]
+        t = st.target.id
+        if not (isinstance(first, ast.Assign) and len(first.targets) == 1 and isinstance(first.targets[0], (ast.Tuple, ast.List)) and isinstance(first.value, ast.Name) and first.value.id == t):
+            continue
+        uses = [x for x in ast.walk(st) if isinstance(x, ast.Name) and x.id == t]
+        if len(uses) != 2 or st.orelse:
+            continue
+        st.target = first.targets[0]
+        st.body = st.body[1:] or [ast.Pass(lineno=st.lineno, col_offset=st.col_offset)]
+        n += 1
     return n
 
 
@@ -1255,6 +1482,50 @@ def _reduce_to_loop(block: list[ast.stmt]) -> int:
                     if len(uses) == 1:
                         block.remove(defs[0])
                         i = block.index(st) + 1
+        multi = None
+        if lam is None and isinstance(step, ast.Name):
+            defs = [d for d in block if isinstance(d, ast.FunctionDef) and d.name == step.id]
+            if len(defs) == 1:
+                d0 = defs[0]
+                body = _docless(d0.body)
+                a = d0.args
+                straight = body and isinstance(body[-1], ast.Return) and body[-1].value is not None and all(isinstance(x, (ast.Assign, ast.AnnAssign)) for x in body[:-1])
+                uses = [x for s2 in block for x in ast.walk(s2) if isinstance(x, ast.Name) and x.id == step.id and isinstance(x.ctx, ast.Load)]
+                if straight and len(a.args) == 2 and not (a.vararg or a.kwarg or a.kwonlyargs or a.defaults) and len(uses) == 1 and not d0.decorator_list:
+                    multi = d0
+        if multi is not None:
+            omod = getattr(st, '_omod', '')
+            acc = st.targets[0].id if isinstance(st, ast.Assign) and len(st.targets) == 1 and isinstance(st.targets[0], ast.Name) else '_acc'
+            p_acc, p_x = multi.args.args[0].arg, multi.args.args[1].arg
+            outer_names = {x.id for s2 in block if s2 is not multi for x in ast.walk(s2) if isinstance(x, ast.Name)}
+            xname = p_x if p_x not in outer_names else p_x + '_elem'
+            locals_ = {x.id for b in _docless(multi.body) for x in ast.walk(b) if isinstance(x, ast.Name) and isinstance(x.ctx, ast.Store)}
+            renames = {nm: nm + '_step' for nm in locals_ if nm in outer_names}
+            sub = _Subst({p_acc: ast.Name(id=acc, ctx=ast.Load()), p_x: ast.Name(id=xname, ctx=ast.Load())}, renames, omod)
+            new_body = [sub.visit(clone(b, omod)) for b in _docless(multi.body)[:-1]]
+            ret = sub.visit(clone(_docless(multi.body)[-1].value, omod))
+
+            def mk2(node):
+                for y in ast.walk(node):
+                    if not hasattr(y, 'lineno') and isinstance(y, (ast.expr, ast.stmt)):
+                        y.lineno, y.col_offset = st.lineno, st.col_offset
+                        y.end_lineno, y.end_col_offset = getattr(st, 'end_lineno', st.lineno), 0
+                    if not getattr(y, '_omod', None):
+                        y._omod = omod  # type: ignore[attr-defined]
+                return node
+
+            first = mk2(ast.Assign(targets=[ast.Name(id=acc, ctx=ast.Store())], value=init))
+            loop = mk2(ast.For(target=ast.Name(id=xname, ctx=ast.Store()), iter=xs,
+                               body=new_body + [ast.Assign(targets=[ast.Name(id=acc, ctx=ast.Store())], value=ret)], orelse=[]))
+            new = [first, loop]
+            if isinstance(st, ast.Return):
+                new.append(mk2(ast.Return(value=ast.Name(id=acc, ctx=ast.Load()))))
+            block.remove(multi)
+            k = block.index(st)
+            block[k:k + 1] = new
+            i = k + len(new)
+            n += 1
+            continue
         if lam is None or len(lam.args.args) != 2:
             continue
         omod = getattr(st, '_omod', '')
